@@ -196,15 +196,28 @@ def check_protocols(repo, res, facts):
                 fn = fi
         if fn is None:
             raise AnalysisError('protocol site %s:%s vanished' % (rel, fq))
-        reads = [n for n in ast.walk(fn.node) if isinstance(n, ast.Attribute) and n.attr == attr
-                 and isinstance(n.ctx, ast.Load) and unparse(n.value) not in ('self', 'self.cls')]
+        # the site and the same-module helpers it calls directly
+        scopes = [fn]
+        for c in ast.walk(fn.node):
+            if isinstance(c, ast.Call) and isinstance(c.func, ast.Name):
+                h = facts.module_funcs.get(rel, {}).get(c.func.id)
+                if h is not None and h not in scopes:
+                    scopes.append(h)
+        reads = []
+        owner = {}
+        for sc in scopes:
+            for n in ast.walk(sc.node):
+                if isinstance(n, ast.Attribute) and n.attr == attr and isinstance(n.ctx, ast.Load) \
+                        and unparse(n.value) not in ('self', 'self.cls'):
+                    reads.append(n)
+                    owner[id(n)] = sc
         if not reads:
             res.note('%s no longer reads .%s directly (site re-triaged as absent)' % (fq, attr))
             continue
         for n in reads:
             nsites += 1
-            guarded = caught_by(n, 'AttributeError', fn.node) or is_getattr_guarded(n)
-            fam = narrow(n, family, facts, fn.node)
+            guarded = caught_by(n, 'AttributeError', owner[id(n)].node) or is_getattr_guarded(n)
+            fam = narrow(n, family, facts, owner[id(n)].node)
             missing = sorted(c for c in fam if not provides_deep2(facts.classes[c], attr))
             key = '%s reads %s.%s' % (fq, unparse(n.value), attr)
             res.check('C08-R3', key, guarded or not missing, rel, n.lineno,
